@@ -67,7 +67,7 @@ class NoFiniteDraw(BaseException):  # control flow of the harness, must pass thr
     pass
 
 
-def run_case(case, n_total_mult=2, built=None):
+def run_case(case, n_total_mult=2, built=None, on_no_finite="report"):
     if built is None:
         t = make_target(case)
         np.random.seed(case["seed"])
@@ -89,7 +89,13 @@ def run_case(case, n_total_mult=2, built=None):
         if mark["beta"] == 0.0:
             warm.append([t.n_points - mark["p"], t.n_finite - mark["f"], None])
             if warm[-1][1] == 0:
-                raise NoFiniteDraw()  # a whole prior batch without support: outside the claim (log 0)
+                if on_no_finite == "skip":
+                    raise NoFiniteDraw()  # ensembles: such a replica says nothing about the bias of the others
+                # a whole prior batch without support: the library has nothing to copy from, keeps the -inf particles and records
+                # log(0) as the batch evidence (finding K7) - the first clause of the property fails, the others are moot
+                raise Violation(f"a prior-sampling batch of {warm[-1][0]} draws contained no point of finite likelihood: the -inf particles are "
+                                "kept as the current particles and the recorded log-evidence becomes log(0) = -inf (every later weight is NaN)",
+                                sig={"kind": "neginf-stored", "regime": "no-finite-draw-batch"})
         if cur["logl"] is not None and np.any(np.isneginf(np.asarray(cur["logl"], dtype=float))):
             raise Violation("a particle with log-likelihood -inf is stored in the current state after mutation", sig={"kind": "neginf-stored"})
 
@@ -111,7 +117,9 @@ def full_cases():
     from vlib import cfggen
 
     return cfggen.full_config(pools=(None, None, "permuting", "executor", 1), allow_extra=False).map(
-        lambda c: dict(c, zero=True, N=c["n_particles"], seed=c["rs_value"], f=None, vv=None if c["metric"] == "ess" else float(c["metric"][2:])))
+        lambda c: (lambda c2: dict(c2, zero=True, N=c2["n_particles"], seed=c2["rs_value"], f=None,
+                                   vv=None if c2["metric"] == "ess" else float(c2["metric"][2:])))(
+            dict(c, np_default=False, n_particles=16) if c.get("np_default") else c))  # batches of 2*d draws would mostly be finding K7
 
 
 def exec_full(case):
@@ -194,7 +202,7 @@ class Ensemble:
         errs = []
         for sd in seeds:
             c = dict(cell, seed=int(sd))
-            s, t, warm = run_case(c, n_total_mult=4)
+            s, t, warm = run_case(c, n_total_mult=4, on_no_finite="skip")
             if warm is None:
                 continue
             errs.append(float(s.evidence()[0]) - true_logz(t))
